@@ -197,3 +197,22 @@ package panos
 
 // text handed to the device, a file or a log is never interpreted as a printf format
 //vc:constformat[C03]
+
+// ---- C03: a Netspoc address-group never keeps the name of a device group ----
+// A Netspoc group that is transferred is written with `set` under its own name;
+// if a device group has that name the set merges into it. genUniqGroupNames
+// therefore renames every Netspoc group whose name exists on the device,
+// whatever the device group contains (it may be changed in place for another
+// Netspoc group).
+//vc:spec macro freeOnDevice(n string, m map[string]*panAddressGroup) bool = !(n in m) || m[n] == nil
+//vc:func (*rulesPair).genUniqGroupNames
+//vc:  invariant[C03] 1 "for _, g := range ab.b.vsys.AddressGroups" @noClashSoFar -1 <= rangeindex && (forall k int :: { ab.b.vsys.AddressGroups[k] } 0 <= k && k <= rangeindex ==> freeOnDevice(ab.b.vsys.AddressGroups[k].Name, aGroups))
+//vc:  invariant[C03] 2 "for i := 1; ; i++" @namesUntouchedWhileSearching forall q *panAddressGroup :: { q.Name } q.Name == loopold(q.Name)
+//vc:  ensures[C03] @netspocGroupNamesFree forall k int :: { ab.b.vsys.AddressGroups[k] } 0 <= k && k < len(ab.b.vsys.AddressGroups) ==> freeOnDevice(ab.b.vsys.AddressGroups[k].Name, ab.a.groups)
+// same for rules: a new rule is written with `set` under its own name and would merge into a device rule of that name
+//vc:func (*rulesPair).genUniqRuleNames
+//vc:  invariant[C03] 1 "for _, ru := range ab.a.rules" @deviceNamesCollected -1 <= rangeindex && (forall j int :: { ab.a.rules[j] } 0 <= j && j <= rangeindex ==> (ab.a.rules[j].Name in aNames) && aNames[ab.a.rules[j].Name])
+//vc:  invariant[C03] 2 "for _, ru := range ab.b.rules" @noRuleClashSoFar -1 <= rangeindex && (forall k int :: { ab.b.rules[k] } 0 <= k && k <= rangeindex ==> !((ab.b.rules[k].Name in aNames) && aNames[ab.b.rules[k].Name]))
+//vc:  invariant[C03] 3 "for i := 1; ; i++" @ruleNamesUntouchedWhileSearching forall q *panRule :: { q.Name } q.Name == loopold(q.Name)
+//vc:  ensures[C03] @deviceRuleNamesKnown forall j int :: { ab.a.rules[j] } 0 <= j && j < len(ab.a.rules) ==> (old(ab.a.rules[j].Name) in aNames) && aNames[old(ab.a.rules[j].Name)]
+//vc:  ensures[C03] @netspocRuleNamesFree forall k int :: { ab.b.rules[k] } 0 <= k && k < len(ab.b.rules) ==> !((ab.b.rules[k].Name in aNames) && aNames[ab.b.rules[k].Name])
